@@ -301,6 +301,25 @@ pub fn run(ctx: &Ctx) -> Report {
     ] {
         all.push(Ex::parse(s).unwrap());
     }
+    // long chains: right- and left-nested And / Or / Xor with 4..8 operands cycling through
+    // A, (Not B), C, (Not A), B, (Not C)
+    {
+        let operands = ["(Var A)", "(Not (Var B))", "(Var C)", "(Not (Var A))", "(Var B)", "(Not (Var C))"];
+        for op in ["And", "Or", "Xor"] {
+            for k in 4..=ctx.tier.pick(8, 12) {
+                let mut right = operands[(k - 1) % 6].to_string();
+                for i in (0..k - 1).rev() {
+                    right = format!("({} {} {})", op, operands[i % 6], right);
+                }
+                let mut left = operands[0].to_string();
+                for i in 1..k {
+                    left = format!("({} {} {})", op, left, operands[i % 6]);
+                }
+                all.push(Ex::parse(&right).unwrap());
+                all.push(Ex::parse(&left).unwrap());
+            }
+        }
+    }
     for (i, e) in all.iter().enumerate() {
         let n = e.vars().len();
         let perms = permutations(n);
@@ -341,6 +360,11 @@ pub fn run(ctx: &Ctx) -> Report {
         if cl.is_empty() || cl.iter().any(|c| c.is_empty()) {
             continue;
         }
+        cases.push(Case::Cnf(cl.clone(), "auto_minfill"));
+        cases.push(Case::Cnf(cl, "auto_force"));
+    }
+    // long CNF inputs: clauses with up to k literals, lists of up to k unit clauses
+    for cl in long_lists(ctx.tier.pick(8, 12)) {
         cases.push(Case::Cnf(cl.clone(), "auto_minfill"));
         cases.push(Case::Cnf(cl, "auto_force"));
     }
